@@ -177,10 +177,10 @@ theorem depths_spec {p : Pool} {nD eD : Nat} (h : p.depths = .ok (nD, eD)) :
 
 /-- `AddLiquidity` keeps pool units = Σ provider units **when both sides of the pool are
     non-empty** (with an empty side the handler replaces the pool units: finding F17) -/
-theorem addLiquidity_units {s s' : St} {signer sym : String} {n e : Nat}
-    (hinv : UnitsInv s) (h : addLiquidity s signer sym n e = .ok s')
+theorem addLiquidityCore_units {s s' : St} {signer sym : String} {n e : Nat}
+    (hinv : UnitsInv s) (h : addLiquidityCore s signer sym n e = .ok s')
     (hside : ∀ p, s.getPool sym = some p → p.nBal + p.nLiab ≠ 0 ∧ p.eBal + p.eLiab ≠ 0) : UnitsInv s' := by
-  unfold addLiquidity at h
+  unfold addLiquidityCore at h
   obtain ⟨_, _, h⟩ := bind_ok h
   obtain ⟨_, _, h⟩ := bind_ok h
   obtain ⟨pool, hp, h⟩ := bind_ok h
@@ -322,9 +322,9 @@ theorem swapOne_units {t : Bool} {x : Nat} {pool pool' : Pool} {r f : Dec} {y fe
   cases h
   split <;> rfl
 
-theorem swap_units {s s' : St} {signer sent recv : String} {amt mn y : Nat}
-    (hinv : UnitsInv s) (h : swap s signer sent recv amt mn = .ok (s', y)) : UnitsInv s' := by
-  unfold swap at h
+theorem swapCore_units {s s' : St} {signer sent recv : String} {amt mn y : Nat}
+    (hinv : UnitsInv s) (h : swapCore s signer sent recv amt mn = .ok (s', y)) : UnitsInv s' := by
+  unfold swapCore at h
   obtain ⟨_, _, h⟩ := bind_ok h
   obtain ⟨_, _, h⟩ := bind_ok h
   obtain ⟨_, _, h⟩ := bind_ok h
@@ -353,6 +353,17 @@ theorem swap_units {s s' : St} {signer sent recv : String} {amt mn y : Nat}
   refine UnitsInv.congr ?_ p4 l4
   exact unitsInv_setPool_sameUnits (pool := { p' with sym := if recv = rowan then sent else recv }) hinv2 (optR_ok hop)
     (by have hq := swapOne_units hso; exact hq)
+
+theorem swap_units {s s' : St} {signer sent recv : String} {amt mn y : Nat}
+    (hinv : UnitsInv s) (h : swap s signer sent recv amt mn = .ok (s', y)) : UnitsInv s' := by
+  obtain ⟨s4, c, hc, rfl⟩ := swap_ok h
+  exact (swapCore_units hinv hc).congr rfl rfl
+
+theorem addLiquidity_units {s s' : St} {signer sym : String} {n e : Nat}
+    (hinv : UnitsInv s) (h : addLiquidity s signer sym n e = .ok s')
+    (hside : ∀ p, s.getPool sym = some p → p.nBal + p.nLiab ≠ 0 ∧ p.eBal + p.eLiab ≠ 0) : UnitsInv s' := by
+  obtain ⟨s0, c, hc, rfl⟩ := addLiquidity_ok h
+  exact (addLiquidityCore_units hinv hc hside).congr rfl rfl
 
 theorem addToBucket_units {s s' : St} {signer d : String} {amt : Nat}
     (hinv : UnitsInv s) (h : addToBucket s signer d amt = .ok s') : UnitsInv s' := by
